@@ -185,4 +185,18 @@ example : let s := run [0, 1, 2, 0, 0, 0, 0, 0, 0, 1, 1, 1, 1, 1, 1, 2, 2, 2, 3,
     s.pcs[1]? = some (.done (some true) .withheld) ∧ s.sh.gone = true ∧ s.sh.issued = 1 ∧ s.sh.revoked = 1 := by
   decide
 
+/-! ### the entry points outside `handleRequest` -/
+
+/-- **A token that spends its last use on sys/seal or sys/step-down is revoked, allowed or not**: the tail of
+`sealInitCommon` / `StepDown` revokes a spent token on both outcomes of the policy check, and proceeds only when the
+request is allowed (real code: stream `usecount`, op `sealdenied`). -/
+theorem spent_token_revoked_any_entry (allowed : Bool) :
+    (sealTail true allowed).revoked = true ∧ (sealTail true allowed).proceeds = allowed ∧
+    (sealTail false allowed).revoked = false := by
+  cases allowed <;> decide
+
+/-- returning from the denied branch before the revocation (NOT the code; finding F51 before its repair) leaves the
+spent token — and the leases issued under it — in place -/
+theorem spent_token_denied_seal_cex : (sealTailDeniedReturnsEarly true false).revoked = false := by decide
+
 end C19
